@@ -685,8 +685,13 @@ func (p *Parser) parseSubdirectives() map[string]string {
 			line := p.current.Value
 			linePos := p.current.Pos
 			p.advance()
+			if p.current.Type == TokenComment {
+				// a comment after the subdirective does not end the block
+				p.advance()
+			}
 
-			spaceIdx := strings.Index(line, " ")
+			// keyword and value are separated by blanks or a tab
+			spaceIdx := strings.IndexAny(line, " \t")
 			if spaceIdx > 0 {
 				name := line[:spaceIdx]
 				value := strings.TrimSpace(line[spaceIdx+1:])
@@ -722,6 +727,9 @@ func (p *Parser) parseSubdirectives() map[string]string {
 		}
 
 		subdirs[name] = strings.TrimSpace(value.String())
+		if p.current.Type == TokenComment {
+			p.advance()
+		}
 	}
 
 	return subdirs
